@@ -32,7 +32,19 @@ _B = {}
 NEXT = {"a": 1, "b": 0, "c": 0}
 
 
-def machine(asyn):
+def machine(asyn, gated=False):
+    if gated:
+        k = (asyn, "gated")
+        if k not in _B:
+            import dataclasses
+            # guarded ring: s0 -a-> s1 -a-> s2, s2 has no `a`, `r` exists only in s2 (s2 -> s0)
+            m = ring3(asyn=asyn, provs=("sm",), guarded=True)
+            if asyn:
+                aw = tuple((p, n, 1) for (p, n, f) in m.provided
+                           if n in ("on_transition", "on_enter_state", "after_transition"))
+                m = dataclasses.replace(m, awaits=aw)
+            _B[k] = build(m)
+        return _B[k]
     if asyn not in _B:
         import dataclasses
         m = ring3(asyn=asyn, provs=("sm",))
@@ -62,6 +74,16 @@ def variants(tier, half):
     # identical events: every sender sends the very same event with the very same arguments
     out.append(((("a",), ("a",), ("a",)), "anon"))
     out.append(((("a", "a"), ("a",)), "anon"))
+    # tolerant machine whose events are enabled in some states only: whether a sent event takes
+    # effect is decided when it is dequeued (linearization oracle)
+    out.append(((("a", "a"), ("r",)), "gated"))
+    out.append(((("a",), ("a", "r")), "gated"))
+    out.append(((("a",), ("a",), ("r",)), "gated"))
+    if half == "threads":
+        # the second sender first attaches a listener whose only callback is a coroutine
+        # function (never awaited on the sync engine - C05's known finding - and irrelevant
+        # here): attaching must not disturb the mutual exclusion of the events
+        out.append(((("a",), ("b",)), "late-async-listener"))
     return out
 
 
@@ -188,16 +210,90 @@ def check_anon(env, sm, n_sends, errors, deadlock):
     return None, ("anon", n_sends)
 
 
+GATED_NEXT = {("s0", "a"): "s1", ("s1", "a"): "s2", ("s2", "r"): "s0",
+              ("s0", "b"): "s0", ("s1", "b"): "s1", ("s2", "b"): "s2"}
+
+
+def check_gated(env, sm, sends, errors, deadlock):
+    """sends: list of dicts {tag, ev, sender, k, inv, ret} (logical clock of the call and of its
+    return).  The machine tolerates events without transition, so an event takes effect or not
+    depending on the state it meets when it is dequeued.  Oracle: some total order of the sent
+    events - consistent with each sender's order, with real time (a call that returned before
+    another was made comes first) and with FIFO (an event whose callbacks had already started
+    when another was sent comes first) - explains, replayed sequentially, exactly the observed
+    callback sequences and the final state."""
+    if deadlock:
+        return deadlock
+    if errors:
+        t, e = errors[0]
+        return f"sender {t} raised {type(e).__name__}: {e}"
+    recs = [r for r in env.flat if r.event != "__initial__"]
+    for r in recs:
+        if not r.ended:
+            return f"{r.brief()} never finished"
+    last_end, last = -1, None
+    observed, first_cb = [], {}
+    for r in recs:
+        if r.tag not in first_cb:
+            first_cb[r.tag] = r.seq_begin
+            observed.append([r.tag, r.event, r.source, r.target, []])
+            if r.seq_begin < last_end:
+                return f"O1 overlap: callbacks of {r.tag} began before {last} had finished"
+        elif observed[-1][0] != r.tag:
+            return f"O1 overlap: callbacks of {r.tag} interleave with those of {observed[-1][0]}"
+        observed[-1][4].append(r.cid[1])
+        if r.seq_end > last_end:
+            last_end, last = r.seq_end, r.tag
+    eng = sm._engine
+    pr = eng._processing
+    locked = pr.locked() if hasattr(pr, "locked") else bool(pr)
+    if len(eng._external_queue) or locked:
+        return f"O4 stranded: queue length {len(eng._external_queue)}, lock held {locked}"
+    final = sm.current_state_value
+    obs_eff = [(t, src, dst) for (t, _ev, src, dst, _n) in observed]
+    for perm in itertools.permutations(sends):
+        pos = {x["tag"]: i for i, x in enumerate(perm)}
+        ok = True
+        for x in sends:
+            for y in sends:
+                if x is y:
+                    continue
+                must = (x["sender"] == y["sender"] and x["k"] < y["k"]) or x["ret"] < y["inv"] or \
+                    (x["tag"] in first_cb and first_cb[x["tag"]] < y["inv"])
+                if must and pos[x["tag"]] > pos[y["tag"]]:
+                    ok = False
+                    break
+            if not ok:
+                break
+        if not ok:
+            continue
+        cur, eff = "s0", []
+        for x in perm:
+            nxt = GATED_NEXT.get((cur, x["ev"]))
+            if nxt is not None:
+                eff.append((x["tag"], cur, nxt))
+                cur = nxt
+        if eff == obs_eff and cur == final:
+            return None, tuple(t for (t, _s, _d) in eff)
+    return (f"O7 no sequential order of the sent events {[(x['tag'], x['ev']) for x in sends]} that "
+            f"respects sender order, real time and FIFO explains the observation: effective "
+            f"transitions {obs_eff}, final state {final} (calls: "
+            f"{[(x['tag'], x['inv'], x['ret']) for x in sends]}, first callbacks {first_cb})")
+
+
 # -- asyncio half -------------------------------------------------------------------------------
 
 def run_async(ch, events, nested, pre_activate):
     import asyncio
-    built = machine(True)
+    gated = nested == "gated"
+    built = machine(True, gated)
     vl = VL()
     vl.reset(ch)
-    impl = Impl(built, Cfg("async", True, False, "vinloop"),
+    impl = Impl(built, Cfg("async", True, gated, "vinloop"),
                 plan=Plan(rules=RULE if nested is True else {}))
     env = impl.env
+    env.vals = {"g1": True, "v1": True}
+    calls = []
     anon = nested == "anon"
     tags = [[("same" if anon else f"S{i}.{k}") for k in range(len(evs))]
             for i, evs in enumerate(events)]
@@ -206,10 +302,15 @@ def run_async(ch, events, nested, pre_activate):
     async def sender(i):
         await vl.point(("S", i, "start"))
         for k, ev in enumerate(events[i]):
+            env.seq += 1
+            call = {"tag": tags[i][k], "ev": ev, "sender": i, "k": k, "inv": env.seq, "ret": None}
+            calls.append(call)
             try:
                 await impl.sm.send(ev, tag=tags[i][k])
             except Exception as e:   # noqa: BLE001
                 errors.append((i, e))
+            env.seq += 1
+            call["ret"] = env.seq
 
     async def main():
         if pre_activate:
@@ -231,6 +332,8 @@ def run_async(ch, events, nested, pre_activate):
         return f"after all senders returned: {'; '.join(left)}", None
     if anon:
         r = check_anon(env, impl.sm, sum(map(len, events)), errors, deadlock)
+    elif gated:
+        r = check_gated(env, impl.sm, calls, errors, deadlock)
     else:
         r = check(env, impl.sm, tags, errors, deadlock)
     return r if isinstance(r, tuple) else (r, None)
@@ -238,13 +341,21 @@ def run_async(ch, events, nested, pre_activate):
 
 # -- thread half --------------------------------------------------------------------------------
 
+class _AsyncOnly:
+    async def after_transition(self):
+        return None
+
+
 def run_threads(ch, events, nested, files, only_lines=None, stateful=False):
-    built = machine(False)
+    gated = nested == "gated"
+    built = machine(False, gated)
+    calls = []
     with tsched.patched_lock():
         anon = nested == "anon"
-        impl = Impl(built, Cfg("sync", True, False, "direct"),
+        impl = Impl(built, Cfg("sync", True, gated, "direct"),
                     plan=Plan(rules=RULE if nested is True else {}))
         env = impl.env
+        env.vals = {"g1": True, "v1": True}
         env.flat_mode = True
         env.yield_hook = tsched.yield_point
         impl.construct()
@@ -257,9 +368,22 @@ def run_threads(ch, events, nested, files, only_lines=None, stateful=False):
 
         def body(i):
             def fn():
+                if nested == "late-async-listener" and i == 1:
+                    sm.add_listener(_AsyncOnly())
                 for k, ev in enumerate(events[i]):
                     progress[i] = k
+                    env.seq += 1
+                    call = {"tag": tags[i][k], "ev": ev, "sender": i, "k": k, "inv": env.seq,
+                            "ret": None,
+                            # what had already happened when this call was made (part of the
+                            # hashed state: the oracle's ordering constraints depend on it)
+                            "seen": (tuple(sorted({r.tag for r in env.flat})),
+                                     tuple(sorted(c2["tag"] for c2 in calls
+                                                  if c2["ret"] is not None)))}
+                    calls.append(call)
                     sm.send(ev, tag=tags[i][k])
+                    env.seq += 1
+                    call["ret"] = env.seq
                 progress[i] = len(events[i])
             return fn
 
@@ -271,7 +395,9 @@ def run_threads(ch, events, nested, files, only_lines=None, stateful=False):
                     pr.locked() if hasattr(pr, "locked") else bool(pr),
                     repr(sm.current_state_value),
                     tuple((r.tag, r.cid[1], r.ended) for r in env.flat),
-                    tuple(sorted(env.fired.items())))
+                    tuple(sorted(env.fired.items())),
+                    tuple((c["tag"], c["seen"], c["ret"] is not None) for c in calls)
+                    if gated else ())
         CUR.env = env
         try:
             s = tsched.Sched(ch, files, only_lines=only_lines,
@@ -281,6 +407,11 @@ def run_threads(ch, events, nested, files, only_lines=None, stateful=False):
             CUR.env = None
     if anon:
         r = check_anon(env, sm, sum(map(len, events)), s.errors, s.deadlock)
+    elif gated:
+        for c in calls:
+            if c["ret"] is None:
+                c["ret"] = float("inf")
+        r = check_gated(env, sm, calls, s.errors, s.deadlock)
     else:
         r = check(env, sm, tags, s.errors, s.deadlock)
     return (r if isinstance(r, tuple) else (r, None)) + (s.npoints,)
@@ -352,7 +483,7 @@ def explore_variant(res, half, vi, variant, tier, roots=None, root_run=True):
         total_sends = sum(map(len, events))
         if tier == "quick":
             # bound 2 where the default schedule is short (two single sends), else 1
-            bound = 2 if (n == 2 and total_sends == 2 and nested is not True) else 1
+            bound = 2 if (n == 2 and total_sends == 2 and nested in (False, "anon")) else 1
         else:
             bound = {2: 3 if (total_sends == 2 and nested is not True) else 2, 3: 2, 4: 1}[n]
         runs = [(None, lambda ch: run_threads(ch, events, nested, files)[:2])]
@@ -396,7 +527,7 @@ def explore_variant(res, half, vi, variant, tier, roots=None, root_run=True):
 
 
 def _cat(msg):
-    for key in ("NONDETERMINISTIC", "O1", "O2", "O3", "O4", "O5", "deadlock", "hang", "raised",
+    for key in ("NONDETERMINISTIC", "O1", "O2", "O3", "O4", "O5", "O7", "deadlock", "hang", "raised",
                 "never finished", "suspended", "pending"):
         if key in msg:
             return key
@@ -453,7 +584,7 @@ def run(tier, seed):
     # explicit-state, unbounded preemptions
     for vi, (events, nested) in enumerate(variants(tier, "threads")):
         n, total_sends = len(events), sum(map(len, events))
-        if n == 2 and (tier == "thorough" or (total_sends == 2 and nested is not True)):
+        if n == 2 and (tier == "thorough" or (total_sends == 2 and nested in (False, "anon"))):
             blocks.append(("stateful-line", tier, vi, None))
         if n == 2 or (n == 3 and (tier == "thorough" or nested == "anon")):
             blocks.append(("stateful-coarse", tier, vi, None))
